@@ -114,10 +114,11 @@ def _bind(callee: Func, call: ast.Call, self_expr):
 
 
 class Inliner:
-    def __init__(self, prog, func: Func, depth=2):
+    def __init__(self, prog, func: Func, depth=2, hoist=True):
         self.prog = prog
         self.func = func
         self.depth = depth
+        self.hoist = hoist  # multi-statement helpers called inside a test / an argument are hoisted into a temporary first
         self.counter = 0
         self.inlined = []  # qnames
 
@@ -133,6 +134,8 @@ class Inliner:
             return None, None
         if g.parent is not None or not _simple_params(g) or _has_nested(g):
             return None, None
+        if any(not (isinstance(d, ast.Name) and d.id == 'staticmethod') for d in g.node.decorator_list):
+            return None, None  # a decorated helper (memoised, wrapped, ...) is not its body
         self_expr = None
         if g.cls is not None and not g.is_staticmethod():
             if isinstance(f, ast.Attribute) and isinstance(f.value, ast.Name) and f.value.id in ('self', 'cls'):
@@ -195,7 +198,7 @@ class Inliner:
                 h.body = self.block(h.body, stack, depth)
         # a multi-statement helper called in an `if` test, or as the only argument of a call statement, is hoisted into a
         # temporary first:  if h(x): ...  ==>  _t = h(x); if _t: ...     acc.extend(h(x))  ==>  _t = h(x); acc.extend(_t)
-        if depth > 0:
+        if depth > 0 and self.hoist:
             hoist = None
             if isinstance(s, ast.If):
                 t = s.test
@@ -301,6 +304,49 @@ class Inliner:
 
             visit_While = visit_For
 
+        # a helper that only falls off its end, or returns in its last statement only, needs no one-shot loop
+        rets = [n for x in body for n in ast.walk(x) if isinstance(n, ast.Return)]
+        straight = not rets or (len(rets) == 1 and body and rets[0] is body[-1])
+        if straight:
+            tail = []
+            if rets:
+                last = body.pop()
+                tnames = {n.id for n in ast.walk(target) if isinstance(n, ast.Name)} if target is not None else set()
+                if (
+                    isinstance(target, (ast.Tuple, ast.List))
+                    and isinstance(last.value, ast.Tuple)
+                    and len(target.elts) == len(last.value.elts)
+                    and all(isinstance(t, ast.Name) for t in target.elts)
+                    and all(isinstance(v, (ast.Name, ast.Constant)) for v in last.value.elts)
+                    and not any(isinstance(v, ast.Name) and v.id in tnames for v in last.value.elts)
+                ):
+                    # a, b = helper(...)  with  `return x, y`  ->  a = x; b = y   (x, y are the helper's renamed locals)
+                    body = self.block(body, stack + (g.qname,), depth - 1)
+                    out = pre + body
+                    for t, v in zip(target.elts, last.value.elts):
+                        out.append(ast.copy_location(ast.Assign(targets=[t], value=v, lineno=s.lineno), s))
+                    for n in out:
+                        ast.fix_missing_locations(n)
+                    return out
+                if uses_ret:
+                    val = last.value if last.value is not None else ast.Constant(value=None)
+                    tail = [ast.copy_location(ast.Assign(targets=[ast.Name(id=retname, ctx=ast.Store())], value=val, lineno=last.lineno), last)]
+                elif last.value is not None and not isinstance(last.value, (ast.Name, ast.Constant)):
+                    tail = [ast.copy_location(ast.Expr(value=last.value), last)]
+            elif uses_ret:
+                tail = [ast.Assign(targets=[ast.Name(id=retname, ctx=ast.Store())], value=ast.Constant(value=None), lineno=s.lineno)]
+            body = self.block(body + tail, stack + (g.qname,), depth - 1)
+            out = pre + body
+            if target is not None:
+                out.append(ast.copy_location(ast.Assign(targets=[target], value=ast.Name(id=retname, ctx=ast.Load()), lineno=s.lineno), s))
+            elif is_ret:
+                out.append(ast.copy_location(ast.Return(value=ast.Name(id=retname, ctx=ast.Load())), s))
+            if not out:
+                out = [ast.copy_location(ast.Pass(), s)]
+            for n in out:
+                ast.copy_location(n, s) if not hasattr(n, 'lineno') else None
+                ast.fix_missing_locations(n)
+            return out
         try:
             body = [y for x in body for y in _aslist(R().visit(x))]
         except _NoInline:
@@ -347,13 +393,13 @@ class _Legacy:
 _CACHE = _Legacy()
 
 
-def inlined(prog, func: Func, depth=2) -> Func:
+def inlined(prog, func: Func, depth=2, hoist=True) -> Func:
     """pseudo Func with same-module helpers inlined (cached per program/function)"""
-    key = (id(prog), func.qname, depth)
+    key = (id(prog), func.qname, depth, hoist)
     if key in _cache(prog):
         return _cache(prog)[key]
     node = copy.deepcopy(func.node)
-    inl = Inliner(prog, func, depth)
+    inl = Inliner(prog, func, depth, hoist)
     node.body = inl.block(node.body, (func.qname,), depth)
     ast.fix_missing_locations(node)
     f2 = Func(func.qname, node, func.module, func.cls, func.parent)
